@@ -273,3 +273,44 @@ mod tests {
         assert_eq!(arr.get(&[0, 0, 2]), Err(InterpreterError::BadSubscript));
     }
 }
+
+#[cfg(feature = "verif-hooks")]
+impl Arrays {
+    pub(crate) fn verif_entries(&self) -> Vec<crate::verif::ArraySnap> {
+        use crate::verif::{ArraySnap, Val};
+        let mut entries = self
+            .0
+            .iter()
+            .map(|(name, array)| match array {
+                ValueArray::String(a) => ArraySnap {
+                    name: name.to_string(),
+                    is_string: true,
+                    dimensions: a.dimensions.clone(),
+                    cell_count: a.values.len(),
+                    non_default: a
+                        .values
+                        .iter()
+                        .enumerate()
+                        .filter(|(_, v)| !v.is_empty())
+                        .map(|(i, v)| (i, Val::Str(v.to_string())))
+                        .collect(),
+                },
+                ValueArray::Number(a) => ArraySnap {
+                    name: name.to_string(),
+                    is_string: false,
+                    dimensions: a.dimensions.clone(),
+                    cell_count: a.values.len(),
+                    non_default: a
+                        .values
+                        .iter()
+                        .enumerate()
+                        .filter(|(_, v)| v.to_bits() != 0)
+                        .map(|(i, v)| (i, Val::Num(*v)))
+                        .collect(),
+                },
+            })
+            .collect::<Vec<_>>();
+        entries.sort_by(|a, b| a.name.cmp(&b.name));
+        entries
+    }
+}
